@@ -198,11 +198,11 @@ impl SourceView {
     /// Returns a requested minified line.
     pub fn get_line(&self, idx: u32) -> Option<&str> {
         let idx = idx as usize;
-        {
-            let lines = self.lines.lock().unwrap();
-            if idx < lines.len() {
-                return Some(lines[idx]);
-            }
+        // The lock is held for the whole call: `lines` and `processed_until` are
+        // only consistent with each other while no other thread is indexing.
+        let mut lines = self.lines.lock().unwrap();
+        if idx < lines.len() {
+            return Some(lines[idx]);
         }
         #[cfg(sourcemap_verif)]
         verif_hooks::yield_point(self, 1);
@@ -214,7 +214,6 @@ impl SourceView {
         #[cfg(sourcemap_verif)]
         verif_hooks::yield_point(self, 2);
 
-        let mut lines = self.lines.lock().unwrap();
         let mut done = false;
 
         while !done {
